@@ -386,6 +386,34 @@ fn scenario<C: MlsConfig>(rng: &mut Rng, mk: Mk<C>, out: &mut Out, qa_mem: &mut 
                 out.cover.insert(format!("side-group:{tag}:stored={}", exp.len().min(5)));
             }
         }
+        // which resumption secrets of past epochs the repository resolves (read-only lookup path of its own, `repo.psk` rows):
+        // for the own group and, from the side group on the same storage, for the main group as "another group"
+        for (i, _tag) in [(1usize, "mem"), (2usize, "sql")] {
+            if w.members[i].group.is_none() {
+                continue;
+            }
+            let cur = w.group(i).current_epoch();
+            let gid = w.group(i).group_id().to_vec();
+            for _ in 0..3 {
+                let e = cur.saturating_sub(rng.below(ret as u64 + 3));
+                if e >= cur {
+                    continue;
+                }
+                if let Ok(av) = w.group(i).verif_resumption_secret_available(&gid, e) {
+                    let qa: &mut QA = if i == 1 { &mut *qa_mem } else { &mut *qa_sql };
+                    qa.put(&format!("repo.psk {e}"), if av { "some" } else { "none" });
+                    out.cover.insert(format!("psk-lookup:{}", if av { "some" } else { "none" }));
+                    // the side group (another group on the same storage) resolves it exactly when the record is STORED
+                    if let Some(sg) = side.get(&i) {
+                        let stored = matches!(w.members[i].h.store.epoch(&gid, e), Ok(Some(_)));
+                        match sg.verif_resumption_secret_available(&gid, e) {
+                            Ok(x) if x != stored => out.fails.push(("C06".into(), format!("another group on the same storage resolves the resumption secret of epoch {e}: {x}, stored: {stored}"))),
+                            _ => {}
+                        }
+                    }
+                }
+            }
+        }
         // both back ends expose the same stored history when written at the same points -- compared through the model rows;
         // ---- late messages of random age to both subjects (fresh message each) ----------------------------------------
         let now = w.group(0).current_epoch();
